@@ -17,6 +17,7 @@ import (
 	"github.com/ethereum/go-ethereum/common"
 	"github.com/ethereum/go-ethereum/crypto"
 	layertypes "github.com/tellor-io/layer/types"
+	"github.com/tellor-io/layer/utils"
 	"github.com/tellor-io/layer/x/bridge/types"
 
 	"cosmossdk.io/collections"
@@ -961,7 +962,8 @@ func (k Keeper) EncodeOracleAttestationData(
 	copy(queryIdBytes32[:], queryId)
 
 	// Convert value to bytes
-	valueBytes, err := hex.DecodeString(value)
+	// report values may carry the 0x/0X prefix that submission accepts
+	valueBytes, err := hex.DecodeString(utils.Remove0xPrefix(value))
 	if err != nil {
 		return nil, err
 	}
